@@ -16,6 +16,8 @@ RULE = ("(operator, operand kinds incl. reflected forms and int/bool/LinCombBool
         "be congruent (mod p) to Python's result and Python must not raise; inside the documented no-raise domain the "
         "call must return. Non-trivial = at least one secret operand and (non-linear operator or boundary-class "
         "operand); distinct by (op, types, values, bitlength).")
+RULE += " Extensions (seeded rounds 10-15): every operation also after a refused call that the program caught, Python's numeric protocols (three-argument pow, int, round, floor, ceil, trunc, index: refused or Python's value), deterministic chains compared step by step with the Python model."
+
 
 ARITH = {"add", "sub", "mul", "truediv", "floordiv", "mod", "divmod", "lshift", "rshift", "neg", "pos", "abs"}
 NONLINEAR = set(refsem.BINARY + refsem.UNARY + refsem.TERNARY) - {"add", "sub", "neg", "pos"}
